@@ -599,6 +599,40 @@ def body_kernel(case, ctx):
                   LA.same_span_defect(kk.T, Ks[t]), 1e-12 / smin)
 
 
+@st.composite
+def kernel_complex_case(draw):
+    n = draw(st.integers(2, 5))
+    d = draw(st.integers(1, n - 1))
+    r = n - d
+    m = draw(st.integers(r, r + 1))
+    return dict(n=n, d=d, m=m, U=draw(gen.orthogonal_matrix(m)),
+                V1=draw(gen.orthogonal_matrix(n)), V2=draw(gen.orthogonal_matrix(n)),
+                ph=[draw(fl(-math.pi, math.pi)) for _ in range(n)],
+                s=[draw(fl(0.3, 3.0)) for _ in range(r)],
+                batch=draw(st.booleans()))
+
+
+def body_kernel_complex(case, ctx):
+    """the projective module is documented for real or complex fields: the kernel of a
+    complex matrix must be annihilated by it (A K = 0, not A conj(K) = 0)"""
+    n, d, m = case["n"], case["d"], case["m"]
+    r = n - d
+    ph = np.exp(1j * np.array(case["ph"]))
+    V = np.array(case["V1"]) @ np.diag(ph) @ np.array(case["V2"])      # unitary
+    U = np.array(case["U"], dtype=float)
+    A = (U[:, :r] * np.array(case["s"])[None, :]) @ V[:r, :]
+    Ktrue = np.conj(V[r:, :])          # rows spanning ker A  (A conj(V[r:]).T = 0)
+    ctx.label("complex", "n=%d" % n, "n>=3" if n >= 3 else "", "batch" if case["batch"] else "")
+    ctx.small("harness: constructed kernel is a kernel", A @ Ktrue.T, 1e-12)
+    arg = np.stack([A, A * (0.5 + 0.5j)]) if case["batch"] else A
+    K = np.asarray(utils.kernel(arg.copy()))
+    want_shape = ((2,) if case["batch"] else ()) + (n, d)
+    ctx.check(K.shape == want_shape, "complex kernel shape", got=K.shape, want=want_shape)
+    for kk in (K if case["batch"] else [K]):
+        ctx.small("A K = 0 for a complex matrix", A @ kk, 1e-11)
+        ctx.close("K^H K = I", np.conj(kk.T) @ kk, np.eye(d), rtol=0, atol=1e-12)
+
+
 # ---------------------------------------------------------------------------
 def simplex_dirs(D):
     """D+1 unit vectors in R^D forming a regular simplex"""
